@@ -42,8 +42,8 @@ class TextualDataType(BaseTextualDataType):
                     (encoding_chars['SUBCOMPONENT'], '{esc}T{esc}'.format(esc=escape_char)),
                     (encoding_chars['REPETITION'], '{esc}R{esc}'.format(esc=escape_char)),)
 
-    def _get_escape_char_regex(self, escape_char):
-        return r'(?<!%s[HNFSTREL])%s(?![HNFSTREL]%s)' % tuple(3 * [re.escape(escape_char)])
+    def _get_escape_sequence_regex(self, escape_char):
+        return r'%s[HNFSTREL]%s' % tuple(2 * [re.escape(escape_char)])
 
     def to_er7(self, encoding_chars=None):
         if encoding_chars is None:
@@ -132,3 +132,4 @@ class SNM(TextualDataType):
     """
     def __init__(self, value, highlights=None, validation_level=None):
         super(SNM, self).__init__(value, None, highlights, validation_level)
+
